@@ -505,7 +505,6 @@ package gonum
 //@ loop 7: invariant l >= lend && l < n
 //@ ensures result ==> forall(k, 1, n, !(d[k] < d[k-1]))
 
-
 // The bound variables of the families below are named r, c, s, t, p, q (u, v, w, z in routines that
 // call another routine of this part) and not i, j, k as in the callees' contracts: with equal names the
 // frame check of a call can confuse the caller's and the callee's variables (see the report).
@@ -753,7 +752,14 @@ package gonum
 
 // z holds the qd array of 4*(n0+1) cells; i0 and n0 are the zero-based first and last index.
 
-//@ func Implementation.Dlasq5 Implementation.Dlasq6 props: C03 C07(safety)
+//@ func Implementation.Dlasq5 props: C03 C07(safety)
+//@ valid i0 >= 0 && n0 >= 0 && len(z) >= 4*(n0+1) && (pp == 0 || pp == 1)
+//@ panics iff !valid, before-writes
+//@ writes z[t] for t in 4*i0..4*(n0+1)
+// i0, n0 and pp are handed back unchanged (Dlasq3 continues with the returned values).
+//@ ensures i0Out == i0 && n0Out == n0 && ppOut == pp
+
+//@ func Implementation.Dlasq6 props: C03 C07(safety)
 //@ valid i0 >= 0 && n0 >= 0 && len(z) >= 4*(n0+1) && (pp == 0 || pp == 1)
 //@ panics iff !valid, before-writes
 //@ writes z[t] for t in 4*i0..4*(n0+1)
@@ -818,3 +824,155 @@ package gonum
 //@ floats: ieee
 //@ ensures s == lapack.SortIncreasing ==> forall(k, 1, n, !(d[k] < d[k-1]))
 //@ ensures s == lapack.SortDecreasing ==> forall(k, 1, n, !(d[k-1] < d[k]))
+
+// ---- singular values: dqds chain -------------------------------------------------------------
+
+// Dlasq3: z holds the qd array of 4*(n0+1) cells (reference: Z dimension 4*N0, PP = 0 ping, 1 pong, 2 flipped).
+// The routine is outside the engine's subset ("OUTSIDE-SUBSET: branch statement goto"), so the contract is assumed (trusted) for its
+// caller Dlasq2. It was checked on a goto-free copy of the body (the two "goto done" replaced by "success = true; break loop" and the
+// Dlasq6 fallback guarded by "if !success"; the copy is not kept): 112 obligations, ok in 2.4 s, including the calls of Dlasq4 (its
+// requires n0 >= i0+2 holds after the deflation loop), Dlasq5 and Dlasq6; with the old check len(z) < 4*n0 (F32) 38 of them fail.
+// ensures: i0 is handed back unchanged, n0 only decreases and not below i0-1, and pp comes back as 0 or 1 unless the segment was
+// already empty (then pp == 2 is returned unchanged).
+//@ trusted Implementation.Dlasq3
+//@ valid i0 >= 0 && n0 >= 0 && len(z) >= 4*(n0+1) && (pp == 0 || pp == 1 || pp == 2)
+//@ panics iff !valid, before-writes
+//@ writes z[t] for t in 4*i0..4*(n0+1)
+//@ ensures i0Out == i0 && min(n0, i0-1) <= n0Out && n0Out <= n0 && (ppOut == 0 || ppOut == 1 || (ppOut == 2 && n0Out < i0))
+// (for the check of the goto-free variant: loop 1: invariant n0 >= min(old(n0), i0-1))
+
+// Dlasq2: z holds the qd array, q's in the even and e's in the odd cells of z[0:2n-1] on entry; "z must have length at least 4*n,
+// and must not contain any negative elements. Dlasq2 will panic otherwise" (the test is z[k] < 0, so a NaN passes).
+// FINDING (reproduced): for n == 2 the first element is not tested: Dlasq2(2, {-1, 1, 1, 0, 0, 0, 0, 0}) returns info == 0 with
+// z[0:2] = {1.618, -0.618}. valid is narrowed to the cells z[1], z[2] that are tested for n == 2.
+// FINDING (reproduced): for n >= 3 the routine stores z[2n-1] = 0 before it tests the elements: Dlasq2(3, {1, 1, -1, 1, 1, 7, ...})
+// panics "lapack: negative z value" with z[5] already overwritten. Hence "panics iff !valid" without "before-writes".
+// (Termination is not claimed: on the exit info == 2 the restore loop "for { ...; if i1 <= 0 { break }; ... }" does not decrease i1
+// when z[4*i1-2] < 0, as in the reference; the exit needs 100*(n0-i0+1) dqds steps without convergence and was never reached in tests.)
+// Thorough tier: 7-14 min on the loaded machine (Houdini over 20 loops).
+//@ func Implementation.Dlasq2 props: C03 C07(safety)
+//@ option tier=thorough
+//@ floats: ieee
+//@ valid n >= 0 && (n == 0 || (len(z) >= 4*n && (n == 2 ==> !(z[1] < 0) && !(z[2] < 0)) &&
+//@       (n != 2 ==> forall(j, 0, n-1, !(z[2*j] < 0) && !(z[2*j+1] < 0)) && !(z[2*n-2] < 0))))
+//@ panics iff !valid
+//@ writes z[t] for t in 0..4*n
+//@ loop 1: invariant k % 2 == 0 && forall(j, 0, div(k, 2), !(old(z[2*j]) < 0) && !(old(z[2*j+1]) < 0))
+//@ invariant forall(t, 0, k, !(old(z[t]) < 0))
+//@ invariant forall(t, 0, 2*n-1, same(z[t], old(z[t])))
+//@ loop 9: invariant -1 <= n0 && n0 <= n-1 && 0 <= i0 && i0 <= n-1
+//@ loop 12: invariant i4loop % 4 == 0 && 4 <= i4loop && i4loop <= 4*(n0+1) && !zSmall
+//@ loop 15: invariant -1 <= n0 && n0 <= n-1 && 0 <= i0 && i0 <= n-1 && (i0 <= n0 ==> pp == 0 || pp == 1 || pp == 2)
+//@ loop 16: invariant i4loop % 4 == 0 && i0-1 <= splt && splt <= n0-3
+//@ loop 17: invariant 0 <= i1 && i1 <= i0
+//@ loop 19: invariant 0 <= i1 && i1 <= i0
+
+// Dlasq1 is assumed (trusted), not checked: with the documented contract as a `func` block 58 of its 66
+// obligations are discharged (explicit panics, every index except e[i] below, the Dcopy calls, the shapes and
+// frames of the scaling calls of work and d); the other 8 are
+//  * call.pre of the four Dlascl calls (dlasq1.go:75, 88, 96, 97): Dlascl panics for a NaN cfrom / cto and a zero
+//    cfrom, and sigmx = max |d[i]|, |e[i]| is NaN as soon as d or e holds a NaN.
+//    FINDING (reproduced): Dlasq1(3, {3, NaN, 1}, {1, 1}, work) panics "lapack: cfrom is NaN", and so does
+//    mat.SVD.Factorize(a, mat.SVDNone) for a 3×3 a with a NaN element (with mat.SVDThin it returns false). Even
+//    for NaN-free input the engine cannot discharge them (math.Max is uninterpreted outside the [real] pass).
+//  * idx / frame of e[i] (dlasq1.go:94) and call.pre / call.frame of Dlascl(..., n, 1, e, 1) (dlasq1.go:97):
+//    FINDING (not reproduced: no input found for which Dlasq2 returns 2, 2e6 random bidiagonals with special
+//    values tried): on the exit "info == 2" the routine stores e[0..n-1] (reference LAPACK declares E(N) in DLASQ1)
+//    while the documentation and the length check ask for n-1 cells: index out of range for len(e) == n-1.
+//  * call.pre of Dlasq2: its entries are squares, hence not negative; float multiplication is uninterpreted.
+// The two requires below narrow the documented contract accordingly; the frame of e includes e[n-1].
+//@ trusted Implementation.Dlasq1
+//@ valid n >= 0 && (n == 0 || (len(d) >= n && len(e) >= n-1 && len(work) >= 4*n))
+//@ requires n >= 3 ==> len(e) >= n
+//@ requires n >= 3 ==> forall(k, 0, n, !isNaN(d[k])) && forall(k, 0, n-1, !isNaN(e[k]))
+//@ panics iff !valid, before-writes
+//@ writes d[k] for k in 0..n ; e[k] for k in 0..n ; work[k] for k in 0..4*n
+
+// Dbdsqr. ldu: the routine accepts ldu >= 1 when nru == 0 (U is not referenced). work: 4*(n-1) cells are documented.
+// FINDING (reproduced, known as F38): without vectors (ncvt == nru == ncc == 0) and n >= 2 the routine hands work to
+// Dlasq1, which panics unless len(work) >= 4*n: Dbdsqr(blas.Upper, 3, 0, 0, 0, d, e, nil, 1, nil, 1, nil, 1, make([]float64, 8))
+// panics "lapack: insufficient length of work". valid asks for 4*n cells in that case. The two requires are those of Dlasq1.
+//@ func Implementation.Dbdsqr props: C03 C07(safety)
+//@ option tier=thorough
+//@ option delegate-panics
+//@ let novec = ncvt == 0 && nru == 0 && ncc == 0
+//@ valid flagUL(uplo) && n >= 0 && ncvt >= 0 && nru >= 0 && ncc >= 0 &&
+//@       ldvt >= max(1, ncvt) && (ldu >= max(1, n) || (nru == 0 && ldu >= 1)) && ldc >= max(1, ncc) &&
+//@       (n == 0 || (len(d) >= n && len(e) >= n-1 && len(work) >= 4*(n-1) && (!novec || n == 1 || len(work) >= 4*n) &&
+//@                   (ncvt == 0 || ge(vt, n, ncvt, ldvt)) && (nru == 0 || ge(u, nru, n, ldu)) && (ncc == 0 || ge(c, n, ncc, ldc))))
+//@ requires novec && n >= 3 ==> len(e) >= n
+//@ requires novec && n >= 3 ==> forall(k, 0, n, !isNaN(d[k])) && forall(k, 0, n-1, !isNaN(e[k]))
+//@ panics iff !valid, before-writes
+//@ writes d[p] for p in 0..n ; e[p] for p in 0..n-1 ; e[p] for p in 0..n if novec ; work[p] for p in 0..4*(n-1) ; work[p] for p in 0..4*n if novec ;
+//@        vt[p*ldvt+q] for p in 0..n, q in 0..ncvt ; u[p*ldu+q] for p in 0..nru, q in 0..n ; c[p*ldc+q] for p in 0..n, q in 0..ncc
+//@ loop 5: invariant 0 <= m && m <= n
+//@ loop 7: invariant 0 <= l2 && l2 <= m-2
+//@ loop 16: invariant 0 <= isub && isub < n-i
+
+// ---- inverse from the Cholesky factor, least squares ------------------------------------------------
+
+//@ func Implementation.Dpotri props: C02 C07(safety)
+//@ valid flagUL(uplo) && n >= 0 && lda >= max(1, n) && (n == 0 || ge(a, n, n, lda))
+//@ panics iff !valid, before-writes
+//@ writes a[p*lda+q] for p in 0..n, q in 0..n if (uplo == blas.Upper && q >= p) || (uplo == blas.Lower && q <= p)
+
+// Dgels. lwork >= max(1, mn + max(mn, nrhs)) with mn = min(m, n): reference LAPACK and the check of the routine (the doc comment
+// asks for max(m,n) + max(m,n,nrhs)). a is not referenced when mn == 0 or nrhs == 0.
+// FINDING (reproduced): the quick return for mn == 0 || nrhs == 0 comes before the test for a workspace query, so a query does not
+// "write work[0] only": Dgels(blas.NoTrans, 0, 3, 2, nil, 3, b, 2, work, -1) zeroes b[0:6], and with b == nil it panics
+// "lapack: insufficient length of a" (message of the nested Dlaset). valid and the frame of b are narrowed to that (bused).
+// FINDING (reproduced): a non-query call with a short a or b stores work[0] (optimal size) before panic(shortA) / panic(shortB):
+// Dgels(blas.NoTrans, 2, 2, 1, make([]float64, 3), 2, b, 1, work, 100) panics with work[0] changed. Hence no "before-writes".
+// FINDING (reproduced, value, found by reading; not expressible here): for anrm > bignum the matrix is scaled but iascl stays 0
+// (reference: IASCL = 2), so the solution is never scaled back and "if iascl == 2" is dead: a = diag(1e300, 2e300), b = (1e300, 4e300)
+// returns x = (2.004e8, 4.008e8) instead of (1, 2).
+//@ func Implementation.Dgels props: C02 C07(safety)
+//@ option tier=thorough
+//@ option delegate-panics
+//@ floats: ieee
+//@ let mn = min(m, n)
+//@ let bused = lwork != -1 || mn == 0
+//@ valid flagT(trans) && m >= 0 && n >= 0 && nrhs >= 0 && lda >= max(1, n) && ldb >= max(1, nrhs) &&
+//@       (lwork >= max(1, mn+max(mn, nrhs)) || lwork == -1) && len(work) >= max(1, lwork) &&
+//@       (lwork == -1 || mn == 0 || nrhs == 0 || ge(a, m, n, lda)) && (!bused || max(m, n) == 0 || nrhs == 0 || ge(b, max(m, n), nrhs, ldb))
+//@ panics iff !valid
+//@ writes work[*] ; a[p*lda+q] for p in 0..m, q in 0..n if lwork != -1 ; b[p*ldb+q] for p in 0..max(m, n), q in 0..nrhs if bused
+
+// Dgesvd: block left disabled. With the documented contract below (jobU/jobVT == SVDOverwrite is documented but "not coded": the
+// routine panics, so valid excludes it) the whole body is inside the subset: 1247 obligations, 1237 discharged (21 min, thorough
+// tier), among them every nested call of Dgeqrf/Dgelqf/Dorgqr/Dorglq/Dgebrd/Dorgbr/Dormbr/Dbdsqr/Dlacpy/Dlaset/Dgemm/Dlascl on
+// all 20 paths except the ones listed, the workspace partition for every admissible lwork, and the frames. The other 10:
+//  * FINDING (reproduced): slice a[lda:] (dgesvd.go:412, 506, 686) and vt[ldvt:] (dgesvd.go:591) fault for n == 1 when the
+//    leading dimension exceeds the documented minimal slice length: Dgesvd(SVDNone, SVDNone, 1, 1, []float64{3}, 2, s, nil, 1, nil, 1,
+//    work, 5) panics "slice bounds out of range [2:1]"; Dgesvd(SVDStore, SVDStore, 2, 1, a (len 4), 3, s, u, 3, vt (len 1), 3, work, 5)
+//    panics "[3:1]" (9 of the 18 job combinations with m in {1, 2}, n == 1, lda == ldvt == 3 fault).
+//  * FINDING (reproduced): values only (jobU == jobVT == SVDNone, min(m,n) >= 3) with a NaN in a panics "lapack: cfrom is NaN"
+//    (Dbdsqr -> Dlasq1 -> Dlascl); the requires below keeps that path out (the NaN-freeness of the bidiagonal cannot be established).
+//  * FINDING (write before check): the nested workspace queries store work[0] before panic(shortA/shortS/shortU/shortVT): no
+//    "before-writes".
+//  * call.frame of the queries Dgeqrf(..., work, -1) (dgesvd.go:125) and Dgelqf (dgesvd.go:244): the contracts of Dgeqrf/Dgelqf list
+//    work[*] also for a query (their frames are kept coarse for speed), so "a query writes work[0] only" fails at these two calls.
+//  * call.pre of Dorgqr (dgesvd.go:642, 724) and Dorglq (dgesvd.go:1135, 1218), undecided (timeouts): on the branch
+//    lwork >= wrkbl + lda*n the workspace left for the call is bounded below only through the value int(work[0]) returned by the
+//    earlier query of the same routine (>= its n), and float<->int conversions are uninterpreted in the safety pass.
+//
+// //@ func Implementation.Dgesvd props: C03 C07(safety)
+// //@ option tier=thorough
+// //@ floats: ieee
+// //@ let minmn = min(m, n)
+// //@ let wantua = jobU == lapack.SVDAll
+// //@ let wantus = jobU == lapack.SVDStore
+// //@ let wantva = jobVT == lapack.SVDAll
+// //@ let wantvs = jobVT == lapack.SVDStore
+// //@ valid (wantua || wantus || jobU == lapack.SVDNone) && (wantva || wantvs || jobVT == lapack.SVDNone) &&
+// //@       m >= 0 && n >= 0 && lda >= max(1, n) && ldu >= 1 && (wantua ==> ldu >= m) && (wantus ==> ldu >= minmn) &&
+// //@       ldvt >= 1 && ((wantva || wantvs) ==> ldvt >= n) &&
+// //@       (lwork >= ite(minmn == 0, 1, max(3*minmn+max(m, n), 5*minmn)) || lwork == -1) && len(work) >= max(1, lwork) &&
+// //@       (minmn == 0 || lwork == -1 || (ge(a, m, n, lda) && len(s) >= minmn && (wantua ==> ge(u, m, m, ldu)) && (wantus ==> ge(u, m, minmn, ldu)) &&
+// //@                                      (wantva ==> ge(vt, n, n, ldvt)) && (wantvs ==> ge(vt, minmn, n, ldvt))))
+// //@ requires !(jobU == lapack.SVDNone && jobVT == lapack.SVDNone && minmn >= 3 && lwork != -1)
+// //@ panics iff !valid
+// //@ writes work[p] for p in 0..1 ; work[p] for p in 0..len(work) if lwork != -1 ; a[p*lda+q] for p in 0..m, q in 0..n if lwork != -1 ;
+// //@        s[p] for p in 0..minmn if lwork != -1 ;
+// //@        u[p*ldu+q] for p in 0..m, q in 0..ite(wantua, m, minmn) if lwork != -1 && (wantua || wantus) ;
+// //@        vt[p*ldvt+q] for p in 0..ite(wantva, n, minmn), q in 0..n if lwork != -1 && (wantva || wantvs)
